@@ -202,7 +202,16 @@ func cmdCheck(args []string) int {
 
 		// native replay of candidate violations and of sampled passing paths
 		var cases []ReplayCase
+		perLabel := map[string]int{}
+		hasBound := false
 		for k, v := range res.Violations {
+			perLabel[v.Kind+"|"+v.Label]++
+			if perLabel[v.Kind+"|"+v.Label] > 2 {
+				continue // two witnesses per label are replayed
+			}
+			if v.Kind == "bound" || v.Kind == "deadlock" {
+				hasBound = true
+			}
 			cases = append(cases, ReplayCase{ID: fmt.Sprintf("v%d", k), Harness: h.Func, Model: v.Model, Known: knownIDs})
 		}
 		for k, s := range res.Samples {
@@ -211,7 +220,11 @@ func cmdCheck(args []string) int {
 		for i := range cases {
 			cases[i].Params = tier.Params
 		}
-		outcomes, rerr := nativeReplay(h.Pkg, cases, 120*time.Second, h.Isolate)
+		watchdog := 120 * time.Second
+		if hasBound {
+			watchdog = 10 * time.Second // termination harness: a native run still going after 10 s is the hang
+		}
+		outcomes, rerr := nativeReplay(h.Pkg, cases, watchdog, h.Isolate || hasBound)
 		if rerr != nil {
 			inconclusive = append(inconclusive, h.Func+": native replay failed: "+rerr.Error())
 		}
